@@ -21,6 +21,7 @@ const (
 	STag    = "Tag"
 	SArrSB  = "(Array String Bool)"
 	SArrIS  = "(Array Int String)"
+	SReader = "Reader"
 	SOpaque = "Opaque" // values of types outside the modelled subset
 )
 
